@@ -34,6 +34,8 @@ pub enum Step {
     /// next() on the stream of op #i
     Next(usize),
     Finish(usize),
+    /// the stream of search `i` is dropped WITHOUT finish(): its receiver goes, no scrub is sent
+    DropStream(usize),
     DropHandles,
     Table,
     /// a single-result operation issued through the handle INSIDE the stream of search `i`
@@ -102,6 +104,7 @@ pub fn frame_bytes(id: i64, op: u64, good: bool, tok: u64) -> Vec<u8> {
 enum Cmd {
     Next,
     Finish,
+    Drop,
     Via,
 }
 
@@ -224,6 +227,13 @@ pub fn run_script(steps: &[Step]) -> Outcome {
                                                         verif_trace(format!("cli next {} {} {}", i, match dl { Some(d) => d.to_string(), None => String::from("none") }, txt));
                                                     }
                                                 }
+                                                Cmd::Drop => {
+                                                    // for the model this is `finish` without a scrub: the receiver goes
+                                                    if stream.state() != ldap3::StreamState::Closed {
+                                                        verif_trace(format!("cli finish {} 0", i));
+                                                    }
+                                                    break;
+                                                }
                                                 Cmd::Via => {
                                                     let j = issued.get();
                                                     issued.set(j + 1);
@@ -311,6 +321,12 @@ pub fn run_script(steps: &[Step]) -> Outcome {
                         Step::Finish(i) => {
                             if let Some(Some(tx)) = cmd_tx.get(i) {
                                 let _ = tx.send(Cmd::Finish);
+                            }
+                            tokio::task::yield_now().await;
+                        }
+                        Step::DropStream(i) => {
+                            if let Some(Some(tx)) = cmd_tx.get(i) {
+                                let _ = tx.send(Cmd::Drop);
                             }
                             tokio::task::yield_now().await;
                         }
